@@ -225,7 +225,7 @@ def c16(tier_):
     handles = ('h1', 'h2') if tier_ == 'thorough' else ('h1',)
     execs, st, tr, uniq = [], 0, 0, 0
     # exit build: every fatal transition ends its own process; status and diagnostics are observed
-    s, t, edges, _ = replay.explore(replay.mc_cfg(('d',), handles), 'exit')
+    s, t, edges, _ = replay.explore(replay.mc_cfg(('d',), handles, testdefault=True), 'exit')
     walks, nu = replay.cover_walks(edges)
     cx = replay.Concrete(rng, apij)
     execs += replay.build_executions(edges, walks, cx, 'exit', sweep_every=0, rng=rng)
@@ -293,7 +293,13 @@ def value_check(pid, tier_, plan, kbits=14, rule='', extra_execs=(), all_known=F
     """plan: list of (solution, evaluators or None, nassign, npts)."""
     t0 = time.time()
     rng = random.Random(seed())
-    execs = [gen.gen_values(rng, sol, nassign=na, npts=npt, evaluators=evs, mix=mix) for sol, evs, na, npt in plan] + list(extra_execs)
+    execs = []
+    for sol, evs, na, npt in plan:        # at most 6 assignments per process (one TLC batch must stay small)
+        left = na
+        while left > 0:
+            execs.append(gen.gen_values(rng, sol, nassign=min(6, left), npts=npt, evaluators=evs, mix=mix))
+            left -= 6
+    execs += list(extra_execs)
     # the library's own default parameters (the inputs of every test and example of the repository)
     execs += [gen.gen_default_values(rng, sol, npts=max(2, npt), evaluators=evs) for sol, evs, na, npt in plan]
     wd = workdir(pid)
